@@ -47,6 +47,17 @@ Theorem C17_reads_are_handed_frames :
 Proof. exact reads_are_handed_frames. Qed.
 Print Assumptions C17_reads_are_handed_frames.
 
+(* the two together, in the words of the property: every message ANY consumer reads, however late it looks, is
+   a contiguous slice input[a, a+n) of what was posted (POST /ts/<feed>, tcpconnect) *)
+Theorem C17_reads_are_slices_of_input :
+  forall maxf caps evs,
+    0 < maxf -> forallb (fun e => negb (is_ws_ev e)) evs = true ->
+    Forall (fun c => Forall (fun r => exists a, firstn (length r) (skipn a (input_of evs)) = r /\
+                                               a + length r <= length (input_of evs)) (got c))
+           (cons (run false maxf (init caps) evs)).
+Proof. exact reads_are_slices_of_input. Qed.
+Print Assumptions C17_reads_are_slices_of_input.
+
 (* websocket ingest (/ws/<feed>) and the reverse direction (destination -> local feed clients): every
    message is handed on whole, in order, as a slice of its own - for both variants of the code *)
 Theorem C17_websocket_paths :
@@ -56,6 +67,27 @@ Theorem C17_websocket_paths :
     handed s = wsmsgs_of evs /\ Forall (fun c => got c = want c /\ sub (got c) (wsmsgs_of evs)) (cons s).
 Proof. exact ws_reads_are_sent_messages. Qed.
 Print Assumptions C17_websocket_paths.
+
+(* "forwarded to EACH subscribed destination": a destination whose channel holds at least one message and that
+   looks at every message as soon as it is handed on misses nothing - what it has read is everything handed
+   on, in order - whatever the writes, the flush points and the OTHER destinations (lagging, busy) do.
+   The schedule is given from that destination's point of view ([expand c]: every hand-off is followed by its
+   [Consume c]); [BO e] is any action of another consumer. *)
+Theorem C17_keeping_up_gets_everything :
+  forall maxf caps c k bs,
+    nth_error caps c = Some k -> 1 <= k -> forallb (blk_ok c) bs = true ->
+    let s := run false maxf (init caps) (concat (map (expand c) bs)) in
+    exists cs, nth_error (cons s) c = Some cs /\ got cs = handed s.
+Proof. exact keeping_up_gets_everything. Qed.
+Print Assumptions C17_keeping_up_gets_everything.
+
+(* non-vacuity: consumer 1 keeps up while consumer 0 never looks and is busy once: 1 has all three messages *)
+Example C17_keeping_up_witness :
+  let bs := [BW [1;2]%N; BF; BO (Busy 0); BM [7]%N; BW [3]%N; BO (Take 0); BF] in
+  let s := run false 8 (init [2; 1]) (concat (map (expand 1) bs)) in
+  forallb (blk_ok 1) bs = true /\ handed s = [[1;2]; [7]; [3]]%N /\
+  map got (cons s) = [[]; [[1;2]; [7]; [3]]]%N.
+Proof. vm_compute. repeat split. Qed.
 
 (* ---- the websocket-out direction: hub -> local feed client through handleWs' writePump, which starts a
    websocket message with one hub message and appends whatever is queued in the client's Send channel.
